@@ -113,6 +113,8 @@ def is_scoped(s):
     return any(op[0] in ("scoped", "look") for op, _, _ in s.records)
 
 F1_SIG = "fork-mode-switch-stale-revert"
+# an operation changed an independent variable it does not assign (two variables sharing tensor storage + an in-place update)
+ALIAS_EFFECT_SIG = "put:changes-a-variable-it-does-not-assign"
 
 
 def settle_variant(run: Run):
@@ -154,6 +156,8 @@ def settle_variant(run: Run):
 
 def sig_of(taint):
     """the finding a stale read belongs to, from what happened to the state before it"""
+    if "alias-effect" in taint:
+        return ALIAS_EFFECT_SIG
     if "unforked" in taint:
         return F1_SIG
     if "nonfinite-mask" in taint and MIX != CLAIMED_MIX:
@@ -181,7 +185,11 @@ def classify(run: Run, G, sess, what_prefix=""):
         s3 = T.run_ops(G, small, fx=FX)
         m3 = next((m for m in s3.mismatches if "mask" not in m["taint"]), mm)
         # end the replay with the stale read itself (the oracle found it by reading every node after the last operation)
-        if small[-1] != ["get", m3["state"], m3["node"]]:
+        if sig == ALIAS_EFFECT_SIG:
+            m3 = next((m for m in s3.mismatches if "alias-effect" in m["taint"]), m3)
+            kids = [c for c in G.dag.sorted_children.get(m3["node"], ())]
+            small = small + [["get", m3["state"], m3["node"]]] + [["get", m3["state"], c] for c in kids[:2]]
+        elif small[-1] != ["get", m3["state"], m3["node"]]:
             s4 = T.run_ops(G, small + [["get", m3["state"], m3["node"]]], fx=FX)
             if any(m["step"] == len(small) and m["node"] == m3["node"] for m in s4.mismatches):
                 small = small + [["get", m3["state"], m3["node"]]]
@@ -189,6 +197,11 @@ def classify(run: Run, G, sess, what_prefix=""):
         run.fail(sig, what_prefix + (
             "a revert after an assignment made with auto_fork_type=None restores a stale _last_fork: a cached derived value no longer "
             "matches the independent values" if sig == F1_SIG else
+            "an operation on one variable changed the value of ANOTHER independent variable of the state (or of another state) that nobody "
+            "assigned: the two hold the same tensor object / views of one storage (as every population latent variable put at its prior mode and "
+            "its `*_mean` parameter do) and the update was made in place.  The model's variables are values (a put on `a` never changes `b`); "
+            "the changed variable's cached descendants are stale and the reads no longer are the from-scratch evaluation of the values the "
+            "history assigned" if sig == ALIAS_EFFECT_SIG else
             "a per-individual revert applied while a cached value of the discarded side is inf/NaN leaves NaN in the kept rows of a cached "
             "derived value (old*mask + cur*~mask is not a selection): the read differs from the from-scratch evaluation" if sig == F2_SIG else
             "after a per-individual revert applied while a WeightedTensor node of the forked sub-graph was cached on both sides, a read (value or "
@@ -449,6 +462,7 @@ def toy_histories(run: Run, n_hist, n_weighted=0):
     f1 = dict(histories_with_unforked_assignment_over_pending_fork=0, histories_with_revert_after_it=0,
               histories_with_read_after_that_revert=0, reads_after_that_revert=0, revert_outcomes={})
     sc = new_sc()
+    al = dict(histories_with_an_aliasing_assignment=0, aliasing_assignments=0, puts_on_a_variable_sharing_storage={})
     for h in range(n_hist + n_weighted):
         rng = run.rng("toy", h)
         malformed = rng.random() < 0.3
@@ -471,6 +485,10 @@ def toy_histories(run: Run, n_hist, n_weighted=0):
             wstats["histories_with_such_a_revert"] += bool(s.weight_flipping_masks)
             wstats["reads_of_weighted_nodes"] += sum(1 for op, out, _ in s.records if op[0] == "get" and out[0] == "ok" and T.is_weighted_json(out[1]))
         count_f1_shape(run, s, f1)
+        al["histories_with_an_aliasing_assignment"] += bool(s.alias_sets)
+        al["aliasing_assignments"] += s.alias_sets
+        for key, n in s.alias_puts.items():
+            al["puts_on_a_variable_sharing_storage"][key] = al["puts_on_a_variable_sharing_storage"].get(key, 0) + n
         run.count("values", "float64 with +-inf/NaN" if G.nonfinite else G.dtype + " finite")
         if s.nonfinite_masks:
             run.count("partial_reverts_over_nonfinite_cached_values", "histories")
@@ -505,6 +523,14 @@ def toy_histories(run: Run, n_hist, n_weighted=0):
                       "keeps one side's weight goes wrong; values AND weights of every read are compared with the model inside Coq and with a "
                       "fresh State bit for bit")
     run.extra["weighted_toy_histories"] = wstats
+    al["note"] = ("an independent variable is assigned the tensor object another one holds (same state or another state), a view of it "
+                  "(`t[...]`, `torch.broadcast_tensors(t, scalar)[0]`) or a population scalar expanded along the individual axis; the model is given "
+                  "the VALUE; before every operation the harness clones every independent value of every state, afterwards every variable the "
+                  "operation does not assign must be bit-identical to its clone and every read must be the from-scratch value")
+    run.extra["aliasing_toy_histories"] = al
+    if al["puts_on_a_variable_sharing_storage"].get("indexed put, auto-fork off", 0) < max(5, n_hist // 50):
+        run.broken("generator:alias-shape", f"the toy-history generator produced too few indexed puts with auto-fork off on a variable that shares "
+                   f"storage with another one: {al}", kind="broken-correspondence")
     if n_weighted and wstats["histories_with_such_a_revert"] < max(5, n_weighted // 40):
         run.broken("generator:weighted-shape", f"the toy-history generator produced too few partial reverts over doubly cached weighted nodes "
                    f"whose weights differ between the two sides: {wstats}", kind="broken-correspondence")
@@ -574,6 +600,83 @@ def directed_nonfinite(run: Run):
             metas.append(dict(stream="directed-log", case=len(sessions)))
     correspond(run, "nonfinite", sessions, metas)
     run.sample(dict(kind="partial revert over a NaN discarded side on the real State", ops=T.F2_OPS, last_read=last))
+
+
+ALIAS_GRAPH = T.ToyGraph([
+    dict(name="a", kind="ind", parents=[]),           # "x": the population latent variable (a vector)
+    dict(name="m", kind="ind", parents=[]),           # "x_mean": its prior mean, an independent variable of its own
+    dict(name="p", kind="pop", parents=[]),
+    dict(name="c", kind="linked", parents=["a", "p"], fun=["affine", 0, [1, 2]]),       # model = x + 2 p
+    dict(name="d", kind="linked", parents=["m"], fun=["affine", 0, [2]]),               # twice_mean
+    dict(name="e", kind="linked", parents=["a", "m"], fun=["sum", 0, [1, -1]]),         # "regularity": sum(x) - sum(x_mean)
+], 3, "int64")
+
+
+def directed_alias(run: Run):
+    """The shape of the seeded defect "in-place index_put when auto-fork is off": `a` is assigned the tensor OBJECT that `m` holds / a view of
+    it (what the prior-mode initialisation of a population latent variable does with its `*_mean` parameter), every descendant is read, then
+    `put(a, v, indices=(i,), accumulate)` and a full accumulating put — with auto-fork off (assigned, `with auto_fork(None)`, a clone with
+    disable_auto_fork), REF and COPY — and reads of a, m and all their descendants; also the put on `m` (the source side), a revert
+    after a forked put, and the sharing across two states.  Value semantics: only the variable that is put changes."""
+    sessions, metas = [], []
+    stats = {}
+    for dtype in ("int64", "float64"):
+        G = T.ToyGraph.from_json(dict(ALIAS_GRAPH.to_json(), dtype=dtype))
+        G.build()
+        reads = [["get", 0, n] for n in ("a", "m", "c", "d", "e")]
+        for how in ("same", "view", "bcast", "expand"):
+            src = "p" if how == "expand" else "m"
+            for mode in (None, "REF", "COPY"):
+                for via in ("mode", "scoped", "clone"):
+                    for side in ("a", "src"):
+                        for acc in (True, False):
+                            if side == "src" and (how == "expand" or not acc):
+                                continue
+                            k = 1 if via == "clone" else 0
+                            tgt = "a" if side == "a" else src
+                            put = ["put", k, tgt, 1, 10, acc]
+                            ops = [["mode", 0, "REF"], ["set", 0, "p", 4], ["set", 0, "m", [1, 2, 3]],
+                                   ["set", 0, "a", None, {"alias": [0, src, how]}]] + reads
+                            if via == "mode":
+                                ops += [["mode", 0, mode], put]
+                            elif via == "scoped":
+                                ops += [["scoped", 0, mode, [put, ["get", 0, "e"]]]]
+                            else:
+                                ops += [["clone", 0, mode is None, False], ["mode", 1, mode], put]
+                            rk = [[o[0], k, o[2]] for o in reads]
+                            ops += rk + [["put", k, tgt, None, [1, 1, 1], True]] + rk
+                            if mode is not None:
+                                ops += [["revert", k]] + rk
+                            if via == "clone":
+                                ops += reads
+                            s = T.run_ops(G, ops, fx=FX)
+                            run.case(("directed-alias", dtype, how, mode, via, side, acc), nontrivial=True)
+                            for key, n in s.alias_puts.items():
+                                stats[key] = stats.get(key, 0) + n
+                            classify(run, G, s)
+                            sc = new_sc()
+                            scoped_oracle(run, G, s, sc)
+                            sessions.append(s)
+                            metas.append(dict(stream="directed-alias", case=len(sessions), how=how, mode=mode, via=via, side=side, accumulate=acc))
+        # the same tensor object held by two states (assigned by the caller): a put on one state must not be seen by the other
+        for mode in (None, "REF", "COPY"):
+            ops = [["set", 0, "p", 4], ["set", 0, "m", [1, 2, 3]], ["set", 0, "a", [5, 6, 7]], ["clone", 0, False, False],
+                   ["set", 1, "a", None, {"alias": [0, "a", "same"]}], ["get", 0, "c"], ["get", 1, "c"], ["mode", 1, mode],
+                   ["put", 1, "a", 2, 10, True], ["get", 1, "c"], ["get", 0, "a"], ["get", 0, "c"], ["get", 0, "e"]]
+            s = T.run_ops(G, ops, fx=FX)
+            run.case(("directed-alias-two-states", dtype, mode), nontrivial=True)
+            for key, n in s.alias_puts.items():
+                stats[key] = stats.get(key, 0) + n
+            classify(run, G, s)
+            sessions.append(s)
+            metas.append(dict(stream="directed-alias-two-states", case=len(sessions), mode=mode))
+    run.extra["directed_alias_histories"] = dict(histories=len(sessions), puts_on_a_variable_sharing_storage=stats)
+    if not any(k.startswith("indexed put, auto-fork off") for k in stats):
+        run.broken("generator:alias-shape", f"the directed aliasing histories executed no indexed put with auto-fork off on shared storage: {stats}", kind="broken-correspondence")
+    correspond(run, "dalias", sessions, metas)
+    s0 = sessions[0]
+    run.sample(dict(kind="two independent variables holding one tensor object, indexed put with auto-fork off (real State)",
+                    ops=[r[0] for r in s0.records], results=[list(r[1]) for r in s0.records]))
 
 
 ONSET_CHAIN = T.ToyGraph([
@@ -865,6 +968,153 @@ def shipped_states(run: Run, kinds):
         run.count("shipped", f"{kind}{kw or ''}: {n_ok} operations checked on a {len(names)}-node graph")
 
 
+def shipped_alias(run: Run, kinds):
+    """Real model states where two independent variables SHARE tensor storage: the prior-mode initialisation of a population latent variable
+    returns a view of its `*_mean` parameter (`torch.broadcast_tensors(loc, scale)[0]`), so right after `initialize`, after `load_parameters` and at
+    the end of a fit `log_g` / `log_g_mean`, `betas` / `betas_mean`, ... are one storage, and `State.clone` (one deepcopy) keeps the sharing inside the
+    clone.  On each such state: indexed puts (assign / accumulate, first / last / random index) on every population latent variable with
+    auto-fork off (`with auto_fork(None)`, `clone(disable_auto_fork=True)`) and on (REF, COPY); after each put every independent variable other
+    than the one put must be bit-identical to its clone taken before, the variable itself must be `old.index_put(...)`, every read must equal the
+    read of a brand new state holding those values (clones), and the state the clone was taken from must not have changed at all."""
+    import torch
+    from harness import synth
+    from leaspy.variables.state import State, StateForkType
+    from leaspy.variables.specs import PopulationLatentVariable
+    stats = dict(states=0, variables_sharing_storage_with_another_independent_variable={}, indexed_puts=0, reads_compared=0, situations={})
+
+    def ptr(t):
+        return None if (t is None or hasattr(t, "weighted_value")) else t.untyped_storage().data_ptr()
+
+    def cl(t):
+        if hasattr(t, "weighted_value"):
+            return type(t)(t.value.clone(), None if t.weight is None else t.weight.clone())
+        return t.clone()
+
+    def show(t):
+        return str((t.value if hasattr(t, "weighted_value") else t).tolist())[:300]
+
+    def read(st, n):
+        try:
+            return ("ok", st[n])
+        except Exception as e:  # noqa
+            return ("err", type(e).__name__)
+
+    for kind, kw in kinds:
+        label = f"{kind}{kw or ''}"
+        situations = []
+        try:
+            model, df = synth.fit(kind, n_iter=3, seed=run.seed % 1000, n_ind=6, **kw)
+            situations.append(("end of fit", model.state))
+        except Exception as e:  # noqa
+            run.count("shipped_alias", f"{label}: fit failed {type(e).__name__}")
+            continue
+        try:
+            m2 = synth.make_model(kind, **kw)
+            m2.features = list(model.features)
+            m2.initialize()
+            m2.load_parameters({k: v.tolist() for k, v in model.parameters.items()})
+            situations.append(("load_parameters", m2.state))
+        except Exception as e:  # noqa
+            run.count("shipped_alias", f"{label}: load_parameters failed {type(e).__name__}")
+        try:
+            from leaspy.io.data import Dataset
+            m3 = synth.make_model(kind, **kw)
+            m3.initialize(Dataset(synth.make_data(df, kind)))
+            situations.append(("initialize", m3.state))
+        except Exception as e:  # noqa
+            run.count("shipped_alias", f"{label}: initialize failed {type(e).__name__}")
+        for sit, base in situations:
+            dag = base.dag
+            names = list(dag.sorted_variables_names)
+            settable = [n for n in names if dag[n].is_settable and base._values[n] is not None]
+            pop_vars = [n for n in dag.sorted_variables_by_type.get(PopulationLatentVariable, {}) if base._values[n] is not None]
+            shared = {v: [n for n in settable if n != v and ptr(base._values[n]) == ptr(base._values[v])] for v in pop_vars}
+            stats["states"] += 1
+            stats["situations"][f"{label}: {sit}"] = {v: w for v, w in shared.items() if w}
+            for v, w in shared.items():
+                if w:
+                    stats["variables_sharing_storage_with_another_independent_variable"][v] = stats["variables_sharing_storage_with_another_independent_variable"].get(v, 0) + 1
+            base_snap = {n: cl(base._values[n]) for n in settable}
+            rng = run.rng("shipped-alias", label, sit)
+            for variant in ("with auto_fork(None)", "clone(disable_auto_fork=True)", "REF", "COPY"):
+                st = base.clone(disable_auto_fork=(variant == "clone(disable_auto_fork=True)"))
+                if variant in ("REF", "COPY"):
+                    st.auto_fork_type = StateForkType[variant]
+                elif variant == "with auto_fork(None)":
+                    st.auto_fork_type = StateForkType.REF
+                hist = [f"{sit}; state.clone(disable_auto_fork={variant == 'clone(disable_auto_fork=True)'})" + (f"; auto_fork_type = {variant}" if variant in ("REF", "COPY") else "")]
+                ok = True
+                for v in pop_vars:
+                    shape = tuple(st._values[v].shape)
+                    if not shape:
+                        continue
+                    idxs = {tuple(0 for _ in shape), tuple(d - 1 for d in shape), tuple(rng.randrange(d) for d in shape)}
+                    for idx in sorted(idxs):
+                        for acc in (True, False):
+                            snap = {n: cl(st._values[n]) for n in settable}
+                            val = torch.tensor(rng.choice([-0.125, 0.25, 0.5]), dtype=snap[v].dtype)
+                            what = f"put({v}, {val.item()}, indices={idx}, accumulate={acc})" + ("  # inside `with state.auto_fork(None)`" if variant == "with auto_fork(None)" else "")
+                            hist.append(what)
+                            try:
+                                if variant == "with auto_fork(None)":
+                                    with st.auto_fork(None):
+                                        st.put(v, val, indices=idx, accumulate=acc)
+                                else:
+                                    st.put(v, val, indices=idx, accumulate=acc)
+                            except Exception as e:  # noqa
+                                run.fail(ALIAS_EFFECT_SIG + ":shipped:put-raises", f"{label}: {what} raised {type(e).__name__}: {str(e)[:150]}",
+                                         dict(kind=kind, options=kw, situation=sit, variant=variant, history=list(hist)))
+                                ok = False
+                                break
+                            stats["indexed_puts"] += 1
+                            run.case(("shipped-alias", label, sit, variant, v, idx, acc), nontrivial=bool(shared[v]), validated=False)
+                            expected = dict(snap)
+                            expected[v] = snap[v].index_put(tuple(torch.tensor(i) for i in idx), val, accumulate=acc)
+                            for n in settable:
+                                if not T.same_tensor(st._values[n], expected[n]):
+                                    run.fail(ALIAS_EFFECT_SIG + ":shipped",
+                                             f"{label}, state as it is after {sit} (variant: {variant}): {what} "
+                                             + (f"changed the independent variable '{n}', which nobody assigned (it shares tensor storage with '{v}')" if n != v
+                                                else f"did not leave '{v}' = old.index_put(...)"),
+                                             dict(kind=kind, options=kw, situation=sit, variant=variant, history=list(hist), node=n),
+                                             expected=show(expected[n]), observed=show(st._values[n]))
+                                    ok = False
+                                    break
+                            if not ok:
+                                break
+                            fresh = State(dag)
+                            for n in settable:
+                                fresh[n] = cl(expected[n])
+                            probe = T.probe_of(st)
+                            for n in names:
+                                a, b = read(probe, n), read(fresh, n)
+                                stats["reads_compared"] += 1
+                                if a[0] != b[0] or (a[0] == "ok" and not T.same_tensor(a[1], b[1])) or (a[0] == "err" and a[1] != b[1]):
+                                    run.fail("stale-read:shipped", f"{label}, state as it is after {sit} (variant: {variant}): after {what} the read of '{n}' differs "
+                                             "from a brand new state holding the values the history assigned",
+                                             dict(kind=kind, options=kw, situation=sit, variant=variant, history=list(hist), node=n),
+                                             expected=str(b[1])[:200], observed=str(a[1])[:200])
+                                    ok = False
+                                    break
+                            if not ok:
+                                break
+                        if not ok:
+                            break
+                    if not ok:
+                        break
+                for n in settable:
+                    if not T.same_tensor(base._values[n], base_snap[n]):
+                        run.fail(ALIAS_EFFECT_SIG + ":shipped:source-of-clone", f"{label}: puts on a clone of the model state ({variant}) changed '{n}' of the model state itself",
+                                 dict(kind=kind, options=kw, situation=sit, variant=variant, history=list(hist), node=n),
+                                 expected=show(base_snap[n]), observed=show(base._values[n]))
+                        break
+            run.count("shipped_alias", f"{label}: {sit}: population variables sharing storage with their prior mean: {sorted(v for v, w in shared.items() if w)}")
+    run.extra["shipped_alias_states"] = stats
+    if not stats["variables_sharing_storage_with_another_independent_variable"]:
+        # informative only: a tree whose prior-mode initialisation copies has no sharing to exercise (the oracle still ran)
+        run.count("shipped_alias", "no model state with two independent variables sharing storage was met")
+
+
 COMPOSE_HDR = ("From Coq Require Import List.\nFrom Leaspy Require Dag.DagModel Locality.Shipped.\n"
                "From Leaspy Require Import Dag.GraphLit Compose.ShippedCheck.\nFrom LeaspyGen Require GenGraphs GenC07.\n"
                "Import ListNotations.\n")
@@ -983,6 +1233,11 @@ def main(run: Run):
     directed_nonfinite(run)
     directed_scoped(run)
     try:
+        directed_alias(run)
+    except Exception as e:  # noqa
+        import traceback
+        run.broken("directed-alias", f"{type(e).__name__}: {e}\n{traceback.format_exc()[-1500:]}")
+    try:
         directed_weighted(run)
         directed_weighted_nd(run)
     except Exception as e:  # noqa
@@ -998,6 +1253,11 @@ def main(run: Run):
         shipped_states(run, kinds)
     except Exception as e:  # noqa
         run.broken("shipped-states-oracle", f"{type(e).__name__}: {e}")
+    try:
+        shipped_alias(run, kinds)
+    except Exception as e:  # noqa
+        import traceback
+        run.broken("shipped-alias-oracle", f"{type(e).__name__}: {e}\n{traceback.format_exc()[-1500:]}")
     return run.finish()
 
 
@@ -1025,7 +1285,7 @@ def replay(run: Run, path: str):
         print(f"  {op}  ->  {out}{'' if ok else '   [outside the discipline]'}")
     bad = [m for m in s.mismatches if "mask" not in m["taint"]]
     for m in bad[:3]:
-        print(f"STALE after step {m['step']}: state {m['state']} node {m['node']}: read {m['observed']} but a fresh state gives {m['expected']}")
+        print(f"STALE after step {m['step']}: state {m['state']} node {m['node']}: read {m['observed']} but a fresh state gives {m['expected']}" + ("  (an independent variable the operation did not assign; expected = its value, cloned, before the operation)" if "alias-effect" in m["taint"] else ""))
     scope_bad = False
     if is_scoped(s):
         print("  trace (one entry per primitive event; 'seen' = auto_fork_type and _last_fork just inside / just after a block, or at a look):")
